@@ -129,7 +129,10 @@ add_e1_part("C08", "C08.json",
 e1prop("C19", "XOFs and random streams", "C19.json",
        "random.Bits: for every bit length in the bound, exact in {false,true} and ALL stream bytes: length = ceil(n/8), value < 2^n, top bit forced iff exact, every unforced bit is the stream's bit unchanged (no bias from masking), no panic. random.Int: for every modulus in the bound and all stream bytes, the result is the first candidate below the modulus, every rejected candidate was >= modulus (pure rejection sampling, no modulo step), 0 <= result < modulus; math/big modelled as mathematical integers.",
        ["quick: Bits for bit lengths 0..24, 31..33, 40, 64, 65; Int for moduli {1,2,3,7,8,9,255,256,257,65537}, at most 3 rejection rounds (stated assumption)", "thorough: Bits 0..40, 47..49, 63..65, 72; Int for 23 moduli up to 65537; second solver"],
-       ["the sponge/compression functions of BLAKE2/SHAKE and sha256 themselves", "XOF wrapper state machines (xof/blake2xb, blake2xs, keccak): see DESIGN.md, not encoded yet", "Int with more than 3 rejection rounds; moduli above 2^17 (the code path is identical; big.Int is a stub)"])
+       ["the sponge/compression functions of BLAKE2/SHAKE and sha256 themselves (golang.org/x/crypto): the XOF wrappers are verified over an ARBITRARY underlying XOF, so chunk-independence of the underlying Read is assumed, not shown", "whole operation sequences of the XOF wrappers: covered by one inductive step per operation from an arbitrary scratch-buffer pre-state, not by enumerating histories", "Int with more than 3 rejection rounds; moduli above 2^17 (the code path is identical; big.Int is a stub)", "the multi-reader random.New stream (sha256/hkdf mixing is external)"],
+       extra_parts=[dict(engine="e1", name="c19-xof", spec="C19xof.json")])
+PROPS["C19"]["level_text"] += " XOF wrappers (blake2xb, blake2xs, keccak): each operation (Read, Write, XORKeyStream, Reseed, Clone, New+Reset) is executed from an arbitrary pre-state (scratch buffer of each listed length with arbitrary contents) over an arbitrary underlying XOF whose output bytes are symbolic: XORKeyStream consumes exactly len(src) stream bytes and XORs them, Reseed keys a fresh XOF with exactly the next 128 output bytes and is writable, Clone forks the underlying state, New splits the seed without dropping a byte and Reset re-absorbs the remainder."
+PROPS["C19"]["bounds"] += ["XOF wrappers: scratch-buffer lengths {nil,0,1,127,128,129,300}, chunk lengths {0,1,127,128,129,600}, seed lengths {0,1,31,32,33,63,64,65,128,129,300}; all byte values"]
 
 e1prop("C04", "Decoding untrusted bytes", "C04.json",
        "point decoders are executed on byte slices of every length in the bound with arbitrary (symbolic) content: every potentially panicking instruction (index, slice bounds, nil dereference, explicit panic) is an obligation 'unreachable'; a successful decode implies the length/format checks and the membership predicate were passed with the decoded coordinates (the predicate of external libraries is a recording stub).",
